@@ -293,6 +293,7 @@ pub fn run_pty(
     tag: &str,
     stdin_tty: bool,
     stdout_tty: bool,
+    stderr_tty: bool,
 ) -> Result<Option<ProcResult>, String> {
     crate::driver::heartbeat();
     let py = match python3() {
@@ -310,6 +311,7 @@ pub fn run_pty(
     cmd.arg(&helper)
         .arg(if stdin_tty { "1" } else { "0" })
         .arg(if stdout_tty { "1" } else { "0" })
+        .arg(if stderr_tty { "1" } else { "0" })
         .arg(&input)
         .arg(&out_path)
         .arg(&err_path)
